@@ -55,6 +55,7 @@ struct OpSpec {
     char kind;          // N notify, S subscribe, U unsubscribe, H shrink, E exists, D depth
     std::string pat;
     int id = 0;
+    bool nested = false;   // issued from inside a callback of a second, unrelated router (prefix 'O')
 };
 
 // the harness' own bookkeeping is shared between its threads without synchronisation (execution is serialised by
@@ -65,6 +66,8 @@ struct Unrecorded {
 };
 
 ConcurrentSubjectRouter *g_router = nullptr;
+ConcurrentSubjectRouter *g_outer = nullptr;   // never written after set-up; its observer runs the nested operation on g_router
+OpSpec g_nested[16];
 std::map<int, std::unique_ptr<USubscription>> g_handles;
 std::map<std::string, RoutingKey> *g_keys = nullptr;   // built before vsched starts (std::regex construction)
 int g_serial = 0;
@@ -80,6 +83,15 @@ void ret(int t, long res) {
 }
 
 void do_op(int t, const OpSpec &o) {
+    if (o.nested) {
+        {
+            Unrecorded u;
+            g_nested[t & 15] = o;
+            g_nested[t & 15].nested = false;
+        }
+        g_outer->notify<int>(key_of("outer"), int(t));
+        return;
+    }
     switch (o.kind) {
         case 'S': {
             call(t, "subscribe", o.pat, o.id, 0);
@@ -145,8 +157,12 @@ std::vector<std::vector<OpSpec>> g_progs;   // [0] = main's set-up ops, [1..] wo
 
 std::vector<OpSpec> parse_prog(const std::string &s) {
     std::vector<OpSpec> v;
-    for (auto &tok : split(s, ',')) {
+    for (auto tok : split(s, ',')) {
         OpSpec o;
+        if (tok[0] == 'O') {
+            o.nested = true;
+            tok = tok.substr(1);
+        }
         o.kind = tok[0];
         std::string rest = tok.substr(1);
         auto h = rest.find('#');
@@ -165,8 +181,17 @@ std::vector<OpSpec> parse_prog(const std::string &s) {
 }
 
 void scenario() {
-    ConcurrentSubjectRouter router;
+    ConcurrentSubjectRouter router, outer;
     g_router = &router;
+    g_outer = &outer;
+    auto outer_sub = outer.subscribe<int>(key_of("outer"), [](int t) {
+        OpSpec o;
+        {
+            Unrecorded u;
+            o = g_nested[t & 15];
+        }
+        do_op(t, o);
+    });
     for (auto &o : g_progs[0]) do_op(0, o);
     std::vector<std::thread> ths;
     for (size_t w = 1; w < g_progs.size(); ++w)
@@ -182,6 +207,7 @@ void scenario() {
         g_handles.clear();
     }
     g_router = nullptr;
+    g_outer = nullptr;
 }
 
 class Ctl : public vs::BaseController {
@@ -206,6 +232,7 @@ void run_exec(const Execution &ex) {
     for (auto &prog : g_progs)
         for (auto &o : prog)
             if (o.pat != "-" || o.kind == 'S') keys.emplace(o.pat, make_key(o.pat));
+    keys.emplace("outer", make_key("outer"));
     g_keys = &keys;
     Ctl ctl;
     ctl.mode = vs::BaseController::RANDOM;
